@@ -238,6 +238,14 @@ def r6(ctx):
                   got={k: render(v[2][1])[:160] for k, v in sends.items()}, key="sends")
 
 
+def r7(ctx):
+    """'repeating a cancel command while the first is still in flight requests nothing new' relies on the recorder marking
+    EVERY tracked order of a sent cancel CancelInFlight (so to_request_cancel skips it next time) - shared with C01.R5 / C01.R6"""
+    from rules import C01
+    C01.r5(ctx)
+    C01.r6(ctx)
+
+
 RULES = [
     ("R1", "filter table of InstrumentStates::filtered / filtered_mut, sibling agreement", r1),
     ("R2", "Order::to_request_cancel per tracked state", r2),
@@ -245,4 +253,5 @@ RULES = [
     ("R4", "default close strategy: one IOC market order per filtered instrument with position and price, side flipped", r4),
     ("R5", "Engine::action dispatch table", r5),
     ("R6", "the actions touch state only via record_in_flight_* and use the command's own filter", r6),
+    ("R7", "in-flight recorders and open_meta / to_active helpers (repeat-cancel idempotence depends on them) = C01.R5, C01.R6", r7),
 ]
